@@ -27,7 +27,7 @@ PROFILE = S.profile(renames=0.3, dups=0.0, attrs=0.05, cfg_off=0.0, repr_cfg_att
 @st.composite
 def cases(draw, tier="quick"):
     spec = draw(S.enum_specs(PROFILE))
-    cfg = draw(S.configs(spec, p_on=0.6, split=False))
+    cfg = draw(S.configs(spec, p_on=[0.3, 0.6, 0.6, 0.9], split=False))
     m = M.RefEnum(spec)
     adm = [r for r in M.REPRS if r != spec["repr"] and M.repr_range(r)[0] <= m.min and m.max <= M.repr_range(r)[1]]
     reprs = draw(st.lists(st.sampled_from(adm), min_size=min(1, len(adm)), max_size=min(4, len(adm)), unique=True)) if adm else []
